@@ -82,7 +82,9 @@ def match_known(known, prop, clause, case):
         if entry.get('clause') != clause:
             continue
         try:
-            if all(_lookup(case, k) == v for k, v in entry.get('match', {}).items()):
+            # a list in 'match' means: any of these values
+            if all((_lookup(case, k) in v) if isinstance(v, list) else (_lookup(case, k) == v)
+                   for k, v in entry.get('match', {}).items()):
                 return entry
         except (KeyError, IndexError, TypeError, ValueError):
             continue
